@@ -299,8 +299,12 @@ func (sd *SpecAnalyser) analyseResponseParams() {
 
 				} else {
 					// op2Response
+					addedNode := getNameOnlyDiffNode("NoContent")
+					if op2Response.Schema != nil {
+						addedNode = getSchemaDiffNode("Body", op2Response.Schema)
+					}
 					sd.Diffs = sd.Diffs.addDiff(SpecDifference{
-						DifferenceLocation: DifferenceLocation{URL: eachURLMethodFrom2.Path, Method: eachURLMethodFrom2.Method, Response: code2, Node: getSchemaDiffNode("Body", op2Response.Schema)},
+						DifferenceLocation: DifferenceLocation{URL: eachURLMethodFrom2.Path, Method: eachURLMethodFrom2.Method, Response: code2, Node: addedNode},
 						Code:               AddedResponse})
 				}
 			}
